@@ -237,8 +237,9 @@ def n_progress(exclude):
 
 # ----------------------------------------------------------------------------- N4 locality (2-safety)
 def n4_locality(exclude):
-    """Two calls in the main regime whose buffers agree on [0, aligned(max)) return the same cut, whatever their sizes,
-    tails and final flags (self-composition; pclmulqdq uninterpreted)."""
+    """Two calls in the main regime whose buffers agree on [0, aligned(max)) and that both decide on a cut (a non-final call
+    may answer 0 = "not yet") return the same cut, whatever their sizes, tails and final flags (self-composition;
+    pclmulqdq uninterpreted)."""
     t0 = time.time()
     fn = _fn()
     B = BOUND
@@ -258,9 +259,9 @@ def n4_locality(exclude):
     r2 = z3.BitVec('r2', 64)
     f1 = z3.Or([z3.And(pc, r1 == r) for pc, r in x1.results])
     f2 = z3.Or([z3.And(pc, r2 == r) for pc, r in x2.results])
-    r, m, dt = I.check([agree_qf, f1, f2, r1 != r2], timeout_ms=300000)
+    r, m, dt = I.check([agree_qf, f1, f2, r1 != r2, r1 != 0, r2 != 0], timeout_ms=300000)
     if r == 'sat':   # prefer a model small enough to replay
-        r_s, m_s, _ = I.check([agree_qf, f1, f2, r1 != r2, z3.ULE(e1.size, 4 * B + 8), z3.ULE(e2.size, 4 * B + 8)], timeout_ms=120000)
+        r_s, m_s, _ = I.check([agree_qf, f1, f2, r1 != r2, r1 != 0, r2 != 0, z3.ULE(e1.size, 4 * B + 8), z3.ULE(e2.size, 4 * B + 8)], timeout_ms=120000)
         if r_s == 'sat':
             m = m_s
     x1.results += x2.results
@@ -286,7 +287,7 @@ def replay_locality(v1, v2):
         d2 = (pre + rng.randbytes(max(v2['size'] - A, 0)))[:max(v2['size'], 0)]
         a = c.next_cut_padded(d1, v1['final'], b'\x00' * 8)
         b = c.next_cut_padded(d2, v2['final'], b'\xff' * 8)
-        if a != b:
+        if a != b and a != 0 and b != 0:
             return {'ok': False, 'd1': d1.hex()[:120], 'd2': d2.hex()[:120], 'cuts': [a, b]}
     return {'ok': True, 'note': 'did not reproduce natively'}
 
